@@ -558,7 +558,7 @@ class PluginSpec(E2ESpec):
             buf = io.StringIO()
             try:
                 with contextlib.redirect_stdout(buf), contextlib.redirect_stderr(buf), harness.fresh_process_warning_filters():
-                    pytest.main(['--xdoctest', '--xdoctest-style=google', '-p', 'no:cacheprovider', '-q', '--rootdir', d, '-c', '/dev/null',
+                    pytest.main(['--xdoctest', '--xdoctest-style=google', *harness.PYTEST_ISOLATION_ARGS, '-q', '--rootdir', d, '-c', '/dev/null',
                                  modname + '.py'], plugins=[Rec()])
                 mod = sys.modules.get(modname)
                 trace = list(mod.TRACE) if mod is not None else []
